@@ -627,6 +627,7 @@ def iterfit(xdata, ydata, invvar=None, upper=5, lower=5, x2=None,
             if maskwork.sum() < sset.nord:
                 warn('Number of good data points fewer than nord.',
                      PydlutilsUserWarning)
+                outmask[xsort] = maskwork
                 return (sset, outmask)
             if x2 is not None:
                 if 'xmin' in kwargs:
@@ -681,6 +682,7 @@ def iterfit(xdata, ydata, invvar=None, upper=5, lower=5, x2=None,
         iiter += 1
         inmask = maskwork
         if error == -2:
+            outmask[xsort] = maskwork
             return (sset, outmask)
         elif error == 0:
             maskwork, qdone = djs_reject(ywork, yfit, inmask=inmask, outmask=maskwork,
